@@ -468,6 +468,13 @@ func (p *c15) Corpus() []any {
 	out = append(out, c15Case{Kind: "files", Files: []c15File{{Name: "requirements.yaml", Data: []byte("dependencies:\n- name: a\n  version: 1.0.0\n  repository: x\n")}}})
 	out = append(out, c15Case{Kind: "files", Files: []c15File{{Name: "Chart.yaml", Data: []byte("name: old\nversion: 0.1.0\n")}, {Name: "requirements.yaml", Data: []byte("dependencies:\n- name: a\n  version: 1.0.0\n  repository: x\n")}, {Name: "requirements.lock", Data: []byte("digest: d\n")}}})
 	out = append(out, c15Case{Kind: "files", Files: []c15File{{Name: "Chart.yaml", Data: cy}, {Name: "Chart.lock", Data: []byte("null")}, {Name: "values.schema.json", Data: []byte{}}}})
+	// an empty values.schema.json reaches LoadFiles as an empty, non-nil slice from the archive
+	// reader too (bytes.Buffer.ReadFrom allocates first): Schema is empty, not nil
+	out = append(out, c15Case{Kind: "rt", Chart: &c15Chart{Meta: md("v2", "emptyschema", "0.1.0"), Files: []c15File{{Name: "values.schema.json", Data: []byte{}}}}})
+	// Chart.yaml twice and requirements.yaml twice: four merges onto one Metadata value
+	out = append(out, c15Case{Kind: "files", Files: []c15File{{Name: "Chart.yaml", Data: []byte("name: old\nversion: 0.1.0\nkeywords: [a]\n")},
+		{Name: "requirements.yaml", Data: []byte("dependencies:\n- name: a\n  version: 1.0.0\n  repository: x\n")}, {Name: "Chart.yaml", Data: []byte("version: 0.2.0\nkeywords: [b]\n")},
+		{Name: "requirements.yaml", Data: []byte("dependencies:\n- name: b\n  version: 2.0.0\n  repository: y\n")}}})
 	// .helmignore
 	tree := func(ign string, extra ...c15File) []c15File {
 		fs := []c15File{{Name: "Chart.yaml", Data: []byte("apiVersion: v2\nname: thechart\nversion: 0.1.0\n")}, {Name: ".helmignore", Data: []byte(ign)},
